@@ -112,9 +112,34 @@ class Partial:
 MAX_KEYS = {"max_depth", "max_steps_seen", "max_batch"}
 
 
+class UnitTimeout(RuntimeError):
+    """a work unit used more CPU time than its budget (a loop that never ends)"""
+
+
+def _on_unit_timer(signum, frame):
+    raise UnitTimeout(f"work unit exceeded its CPU budget of {unit_cpu_budget()} s (a loop that does not terminate)")
+
+
+def unit_cpu_budget() -> int:
+    try:
+        return int(os.environ.get("VERIF_UNIT_CPU_S", "300" if os.environ.get("VERIF_TIER_RUN", "quick") == "quick" else "3600"))
+    except ValueError:
+        return 300
+
+
 def _run_unit(args):
     func, item = args
     quiet()
+    import signal
+    import threading
+
+    timed = threading.current_thread() is threading.main_thread()
+    if timed:
+        # CPU-time budget per work unit (ITIMER_VIRTUAL: independent of the wall-clock alarm the step watchdog uses).
+        # A decoding loop of the LIBRARY that spins forever (e.g. while not done: env.step) ends the unit with an error
+        # raised inside the library frame, which is reported as a finding; a slow harness shows up as a harness error.
+        old_handler = signal.signal(signal.SIGVTALRM, _on_unit_timer)
+        signal.setitimer(signal.ITIMER_VIRTUAL, unit_cpu_budget(), 20)  # fires again every 20 CPU-s if a handler swallowed it
     try:
         return func(item)
     except Exception as e:  # must never be silently dropped
@@ -131,6 +156,10 @@ def _run_unit(args):
         p.stats["harness_errors"] = 1
         p.info.append(f"HARNESS-ERROR in unit {item!r}: {type(e).__name__}: {e}\n{traceback.format_exc()}")
         return p
+    finally:
+        if timed:
+            signal.setitimer(signal.ITIMER_VIRTUAL, 0)
+            signal.signal(signal.SIGVTALRM, old_handler)
 
 
 def pmap(func, items, workers=None):
